@@ -73,6 +73,18 @@ def render(src: str, loader: dict[str, str], data: dict[str, Any] | None = None)
         return ("P", type(e).__name__)
 
 
+def render_async(src: str, loader: dict[str, str], data: dict[str, Any] | None = None) -> tuple:
+    import asyncio
+    from liquid2.exceptions import LiquidError
+    env = mk_env(loader)
+    try:
+        return ("T", asyncio.run(env.from_string(src, name="main").render_async(**(data or {}))))
+    except LiquidError as e:
+        return ("E", type(e).__name__)
+    except Exception as e:  # noqa: BLE001
+        return ("P", type(e).__name__)
+
+
 def region(out: tuple) -> Any:
     if out[0] != "T":
         return out
@@ -135,7 +147,7 @@ def preludes(r, k: int) -> list[str]:
 
 LAW_CONDS = ["a", "a == 1", "a and b", "b or nil", "s contains 'x'", "1 < 'x'", "nil", "g", "g == 'G'", "zz", "a != b", "false", "n > 1"]
 LAW_EXPRS = ["a", "g", "1", "'x'", "nil", "a | default: 'D'", "g | downcase", "n | plus: 1", "(1..3) | join: '-'", "zz", "true", "s | upcase"]
-LAW_BODIES = ["A", "{{ a }}", "{% increment n %}", "{% assign a = 'Z' %}{{ a }}", "{% for q in (1..2) %}{{ q }}{{ a }}{% endfor %}",
+LAW_BODIES = ["A", "{{ a }}", "[{{ zl }}{% assign zl = it %}]", "{{ it }}{% capture it %}X{% endcapture %}", "{% increment n %}", "{% assign a = 'Z' %}{{ a }}", "{% for q in (1..2) %}{{ q }}{{ a }}{% endfor %}",
               "{% if a %}T{% else %}F{% endif %}", "{% render 'q' %}", "{% cycle 'p', 'q' %}", "{{ it }}", "{{ g }}{{ b }}", "",
               " \n ", "{% capture b %}C{% endcapture %}{{ b }}", "{% if 1 < 'x' %}{% endif %}", "{% decrement c %}{{ c }}"]
 
@@ -152,6 +164,11 @@ def law_probes(chk: C.Check, r, rounds: int) -> int:
             nonlocal n
             n += 1
             x, y = render(lhs, ld, data), render(rhs, ld, data)
+            xa = render_async(lhs, ld, data)
+            n += 1
+            if xa != x:
+                chk.finding("oracle:law-async-" + what, f"{lhs!r} gave {x} with render() but {xa} with render_async()",
+                            {"law": what, "source": lhs, "loader": ld, "data": data, "sync": x, "async": xa})
             if x != y:
                 chk.finding("oracle:law-" + what, f"{lhs!r} gave {x} but {rhs!r} gave {y}",
                             {"law": what, "lhs": lhs, "rhs": rhs, "loader": ld, "data": data, "lhs_out": x, "rhs_out": y})
